@@ -4,6 +4,8 @@ from harness.scen import call, LOOK_TO, GO
 
 class C08(scen.WorldProp):
     id = "C08"
+    fuzz_kinds = {"ring", "r_expect"}
+    fuzz_times = False
     lean_module = "Wheatley.Props.C08"
     theorems = ["Wheatley.C08.ownership_spec",
                 "Wheatley.C08.turn_sample",
@@ -52,7 +54,17 @@ class C08(scen.WorldProp):
                     ch += 1
             on_join = scen.humans_on_join(humans, name, wbells)
             on_join[0]["users"].append({"id": 12, "name": "Bob"})
-            sc = {"start": 1000.0, "end": end, "tower_size": N, "events": events, "on_join": on_join,
+            N0 = N
+            if rng.random() < 0.3:
+                # the tower is bigger when Wheatley joins and shrinks to N before the touch: assignments
+                # of the removed bells are forgotten, those of bells 1..N (the new tenor included) are kept
+                N0 = N + rng.choice([1, 2, 4])
+                extra = [b for b in range(N + 1, N0 + 1) if rng.random() < 0.5]
+                on_join = scen.humans_on_join(sorted(humans + extra), name, wbells + list(range(N + 1, N0 + 1)))
+                on_join[0]["users"].append({"id": 12, "name": "Bob"})
+                events.append([t0 - rng.uniform(0.3, 0.8), "msg", {"m": "size_change", "size": N}])
+                ch += 1
+            sc = {"start": 1000.0, "end": end, "tower_size": N0, "events": events, "on_join": on_join,
                   "bot": scen.bot_cfg(spec, user_name=name),
                   "rhythm": scen.rhythm_cfg(rng.choice(["wait", "wait", "regression"]), peal_speed=ps)}
             yield {"k": "world", "scenario": sc, "humans": humans, "lag": rng.choice([0.0, 0.05, 0.2]), "churn": ch}
@@ -88,7 +100,7 @@ class C08(scen.WorldProp):
         owner = {}
         names = {}
         timeline = []   # (t, bell -> is Wheatley's) snapshots after each message
-        N = sc["tower_size"]
+        N = 16
 
         def wheatleys(b):
             u = owner.get(b)
@@ -112,6 +124,10 @@ class C08(scen.WorldProp):
                     owner[m["bell"]] = m["user"]
             elif k == "user_left":
                 for b in [b for b, u in owner.items() if u == m["id"]]:
+                    del owner[b]
+            elif k == "size_change":
+                # bells that no longer exist lose their ringer; bells 1..size keep theirs
+                for b in [b for b in owner if b > m["size"]]:
                     del owner[b]
             else:
                 continue
